@@ -11,6 +11,7 @@ from __future__ import annotations
 import fractions
 import os
 import time
+import zlib
 import traceback
 
 import z3
@@ -170,6 +171,7 @@ class Case:
 # --------------------------------------------------------------------------------------------
 # solving
 
+XCHECK_EVERY = max(1, int(os.environ.get("VERIF_XCHECK_EVERY", "8")))
 Z3_TIMEOUT_MS = int(os.environ.get("PYVC_Z3_TIMEOUT_MS", "10000"))
 
 
@@ -323,9 +325,10 @@ def discharge(ob, inputs, both=False, timeout_ms=None):
             cres = cvc5_check(s.to_smt2(), Z3_TIMEOUT_MS)
             if cres in ("sat", "unsat"):
                 res, backend = cres, "cvc5"
-    elif both:
-        # thorough tier: independent second opinion; a short budget -- a cvc5 timeout never changes the verdict
-        cres = cvc5_check(s.to_smt2(), min(Z3_TIMEOUT_MS, 4000))
+    elif both and zlib.crc32(ob.name.encode()) % XCHECK_EVERY == 0:
+        # thorough tier: independent second opinion on a fixed sample of the obligations (every XCHECK_EVERY-th by name hash); a short
+        # budget -- a cvc5 timeout never changes the verdict
+        cres = cvc5_check(s.to_smt2(), min(Z3_TIMEOUT_MS, 2500))
         ob.info["cvc5"] = cres
         if cres in ("sat", "unsat") and cres != res:
             ob.info["backend_disagreement"] = True
